@@ -43,6 +43,8 @@ def py_eval(fn, arrays):
         return a * a
     if fn == "neg":
         return -a
+    if fn == "arr":
+        return a * 1.0
     raise ValueError(fn)
 
 
